@@ -36,3 +36,15 @@ impl ExtendedAddr {
                 r is Ok ==> r->Ok_0 == byron_parse(old(raw).data@)->Some_0.0 && final(raw).pos == byron_parse(old(raw).data@)->Some_0.1 && final(raw).pos <= old(raw).data@.len() { unimplemented!() }
 }
 impl From<DeserializeError> for JsError { #[verifier::external_body] fn from(e: DeserializeError) -> JsError { unimplemented!() } }
+
+// ---- CBOR-in-CBOR (inline datum, script reference; utils::from_bytes): any decodable type as a partial function of the bytes that also says how many it consumed
+pub trait Deserialize: Sized {
+    spec fn parse(data: Seq<u8>) -> Option<(Self, nat)>;
+    fn deserialize(raw: &mut CursorDe) -> (r: Result<Self, DeserializeError>)
+        requires old(raw).pos == 0
+        ensures final(raw).data == old(raw).data, r is Ok <==> Self::parse(old(raw).data@) is Some,
+                r is Ok ==> r->Ok_0 == Self::parse(old(raw).data@)->Some_0.0 && final(raw).pos == Self::parse(old(raw).data@)->Some_0.1 && final(raw).pos <= old(raw).data@.len();
+}
+impl CursorDe {
+    #[verifier::external_body] pub fn new_ref_(bytes: &Vec<u8>) -> (r: CursorDe) ensures r.data@ == bytes@, r.pos == 0 { unimplemented!() }
+}
